@@ -400,7 +400,7 @@ func checkWakeRow(r *Reporter, p *Prog, pkg, typ, method string, row wakeRow) {
 	}
 	exemptEdges := map[Edge]bool{}
 	if row.Exempt != nil {
-		for _, e := range f.RelEdges(row.Exempt) {
+		for _, e := range f.RelEdgesAt(row.Exempt) {
 			exemptEdges[e] = true
 		}
 		// false edge of a conjunction whose atoms are all negations of exempt facts
@@ -409,13 +409,13 @@ func checkWakeRow(r *Reporter, p *Prog, pkg, typ, method string, row wakeRow) {
 			if c == nil || !b.Live {
 				continue
 			}
-			atoms := factsOn(c, true)
+			atoms := f.EdgeFacts(b, true)
 			if len(atoms) < 2 {
 				continue
 			}
 			all := true
 			for _, a := range atoms {
-				rel, ok := relOf(a.Atom)
+				rel, ok := relOfWith(a.Atom, func(x ast.Expr) string { return f.KeyAt(x, Point{b, len(b.Nodes) - 1}) })
 				if !ok {
 					all = false
 					break
